@@ -291,6 +291,13 @@ func alphabet(name string) []Op {
 		add(Op{K: opAddSlotToAccessList, A: 1, S: 0}, Op{K: opAddSlotToAccessList, A: 2, S: 1})
 		add(Op{K: opPrepareAccessList, V: 0})
 		add(Op{K: opAddPreimage}, Op{K: opSnapshot}, Op{K: opFinalise})
+	case "core5": // subset of core, for the longest exhaustive length
+		add(Op{K: opCreateAccount, A: 2}, Op{K: opAddBalance, A: 2, V: 1}, Op{K: opAddBalance, A: 2, V: 0}, Op{K: opAddBalance, A: 1, V: 1},
+			Op{K: opSubBalance, A: 1, V: 1}, Op{K: opSubBalance, A: 0, V: 1}, Op{K: opSetNonce, A: 2, V: 1}, Op{K: opSetNonce, A: 1, V: 0},
+			Op{K: opSetCode, A: 2, V: 2}, Op{K: opSetCode, A: 1, V: 0},
+			Op{K: opSetState, A: 1, S: 0, V: 0}, Op{K: opSetState, A: 1, S: 0, V: 2}, Op{K: opSetState, A: 1, S: 1, V: 1}, Op{K: opSetState, A: 2, S: 0, V: 1},
+			Op{K: opSuicide, A: 1}, Op{K: opSuicide, A: 2}, Op{K: opAddRefund, V: 2}, Op{K: opSubRefund, V: 1}, Op{K: opAddLog, A: 1, V: 1},
+			Op{K: opAddAddressToAccessList, A: 2}, Op{K: opAddSlotToAccessList, A: 1, S: 0}, Op{K: opSnapshot}, Op{K: opFinalise})
 	case "bfs":
 		add(Op{K: opCreateAccount, A: 2}, Op{K: opAddBalance, A: 2, V: 1}, Op{K: opAddBalance, A: 2, V: 0},
 			Op{K: opSubBalance, A: 1, V: 1}, Op{K: opSetNonce, A: 2, V: 1}, Op{K: opSetCode, A: 2, V: 2},
@@ -333,6 +340,9 @@ type ifaceRun struct {
 
 	// slots with a non-zero value in the last committed block, per address (ForEachStorage comparability)
 	committed [3][2]bool
+
+	// true right after a block commit (EndBlock) until the next operation
+	atBlockStart bool
 
 	// vacuity flags
 	revertUndid     bool
@@ -379,7 +389,12 @@ var (
 func applyTo(db ethvm.StateDB, op Op, snaps *[]int, fin func() string, next func() string, endb func() string) string {
 	switch op.K {
 	case opCreateAccount:
+		// as in go-ethereum's core/vm/evm.go create() under EIP-158 (always active in vm.EthereumConfig):
+		// CreateAccount is immediately followed by SetNonce(addr, 1). A bare CreateAccount is not generated
+		// because go-ethereum's own state keeps a re-created, otherwise untouched object alive in memory only
+		// (resetObjectChange dirties nothing) - an artefact the EVM cannot expose.
 		db.CreateAccount(ifaceAddrs[op.A])
+		db.SetNonce(ifaceAddrs[op.A], 1)
 	case opAddBalance:
 		db.AddBalance(ifaceAddrs[op.A], big.NewInt(int64(op.V)))
 	case opSubBalance:
@@ -455,6 +470,7 @@ func (x *ifaceRun) apply(op Op) {
 	if op.K == opRevertToSnapshot {
 		before = digest(x.observe(false, nil))
 	}
+	x.atBlockStart = op.K == opEndBlock
 	if pa := catch(func() {
 		x.lastA = applyTo(x.a.sdb, op, &x.snapA,
 			func() string { return errStr(x.a.finalise()) },
@@ -518,7 +534,9 @@ func (x *ifaceRun) creatable(a ethcmn.Address) bool {
 
 var emptyCodeHash = ethcrypto.Keccak256Hash(nil)
 
-// enabled lists the operations of alpha that are legal now: CreateAccount only where the EVM may call it, SubBalance only up to the balance (the adapter
+// enabled lists the operations of alpha that are legal now: CreateAccount only where the EVM may call it,
+// SetState only on an existing account (the EVM stores only into the executing account; on a missing one
+// go-ethereum re-creates an object that a no-op SetState leaves undirtied, the same in-memory artefact), SubBalance only up to the balance (the adapter
 // panics below zero, go-ethereum goes negative; the EVM never does it: CanTransfer), SubRefund only up to
 // the refund counter (both panic below zero), RevertToSnapshot for every currently valid snapshot,
 // EndBlock only when the execution owns its chain state.
@@ -528,6 +546,10 @@ func (x *ifaceRun) enabled(alpha []Op, private bool, out []Op) []Op {
 		switch op.K {
 		case opCreateAccount:
 			if !x.creatable(ifaceAddrs[op.A]) {
+				continue
+			}
+		case opSetState:
+			if !x.r.sdb.Exist(ifaceAddrs[op.A]) {
 				continue
 			}
 		case opSubBalance:
@@ -558,7 +580,7 @@ func (x *ifaceRun) enabled(alpha []Op, private bool, out []Op) []Op {
 // GettersCovered is reported in the evidence.
 var GettersCovered = []string{"Exist", "Empty", "GetBalance", "GetNonce", "GetCodeHash", "GetCode", "GetCodeSize",
 	"GetState", "GetCommittedState", "HasSuicided", "GetRefund", "AddressInAccessList", "SlotInAccessList",
-	"logs (GetTxLogs vs GetLogs: Address, Topics, Data, TxHash, Index)", "ForEachStorage (keys committed at block start)",
+	"logs (GetTxLogs vs GetLogs: Address, Topics, Data, TxHash, Index)", "ForEachStorage (compared right after every block commit)",
 	"return values of Snapshot and Suicide", "error returned by Finalise"}
 
 // MutatorsCovered is reported in the evidence.
@@ -589,12 +611,18 @@ func b2b(b bool) byte {
 
 // observe serialises the observation of one back-end (adapterSide selects which) into buf.
 func (x *ifaceRun) observe(adapterSide bool, buf []byte) []byte {
-	if adapterSide {
-		return observeDB(x.a.sdb, x.a.txLogs(), true, &x.committed, buf)
+	var committed *[3][2]bool
+	if x.atBlockStart {
+		committed = &x.committed
 	}
-	return observeDB(x.r.sdb, x.r.txLogs(), false, &x.committed, buf)
+	if adapterSide {
+		return observeDB(x.a.sdb, x.a.txLogs(), true, committed, buf)
+	}
+	return observeDB(x.r.sdb, x.r.txLogs(), false, committed, buf)
 }
 
+// observeDB: committed != nil means "a block was just committed": only then ForEachStorage is compared (the
+// adapter's implementation iterates the committed chain state only, see storage/state.go IterateRange).
 func observeDB(db ethvm.StateDB, logs []*ethtypes.Log, adapterSide bool, committed *[3][2]bool, buf []byte) []byte {
 	var u8 [8]byte
 	for ai, a := range ifaceAddrs {
@@ -618,6 +646,9 @@ func observeDB(db ethvm.StateDB, logs []*ethtypes.Log, adapterSide bool, committ
 			buf = append(buf, b2b(ao), b2b(so))
 		}
 		// ForEachStorage
+		if committed == nil {
+			continue
+		}
 		var seen [2]ethcmn.Hash
 		var has [2]bool
 		extra := 0
@@ -706,6 +737,9 @@ func (x *ifaceRun) namedObservation(adapterSide bool) (out []namedField) {
 		for si, s := range ifaceSlots {
 			ao, so := db.SlotInAccessList(a, s)
 			add("SlotInAccessList", fmt.Sprintf("%s,slot%d", n, si), fmt.Sprintf("%v,%v", ao, so))
+		}
+		if !x.atBlockStart {
+			continue
 		}
 		var items []string
 		if adapterSide {
